@@ -536,7 +536,7 @@ def eligible(spec, cfg):
 
 def user_skipped_closure(spec):
     edges = spec_task_edges(spec)
-    s = {t["id"] for t in spec["tasks"] if {"skip", "skipif_true", "skipif_true_e"} & set(t.get("marks", []))}
+    s = {t["id"] for t in spec["tasks"] if {"skip", "skipif_true", "skipif_true_e", "skipif_true_kw"} & set(t.get("marks", []))}
     out = set(s)
     for t in s:
         out |= closure(edges, t, forward=True)
